@@ -2027,6 +2027,13 @@ func (h *fsmHandler) established(ctx context.Context) (bgp.FSMState, *fsmStateRe
 
 	holdtimerResetCh := make(chan struct{}, 2)
 
+	// a NOTIFICATION requested by ShutdownPeer/ResetPeer while no session
+	// was established has no addressee; it must not hit this session.
+	select {
+	case <-fsm.notification:
+	default:
+	}
+
 	go h.sendMessageloop(ioCtx, fsm.conn, reasonCh, wg)
 	go h.recvMessageloop(ioCtx, fsm.conn, holdtimerResetCh, reasonCh, wg)
 
